@@ -110,6 +110,29 @@ func c01Op(c *Ctx, r *Report, a *Anchors) {
 					}
 				}
 				r.check("C01.OP", fnName(fn)+": operation source single-operation fallback", valPos(t), okSrc && guarded, "the fallback may take an entry of exe.Ops only when len(exe.Ops) == 1: with several operations and no (or an unknown) name nothing may be executed")
+				// ... and only for a caller that named no operation: a name that is not in the document is unknown
+				unnamed := false
+				if isNext {
+					if rg, ok := nx.Iter.(*ssa.Range); ok {
+						for _, g := range blockGuards(rg.Block()) {
+							g = normGuard(g)
+							if v, lit, eq, ok := strConstCmp(g.cond); ok && v == ssa.Value(nameP) && lit == "" && eq == g.val {
+								unnamed = true
+							}
+							if v, op, k, ok := intCmp(g.cond); ok {
+								if x, isLen := isLenOf(v); isLen && x == ssa.Value(nameP) {
+									if !g.val {
+										op = negOp(op)
+									}
+									if (op == token.EQL && k == 0) || (op == token.LEQ && k == 0) || (op == token.LSS && k == 1) {
+										unnamed = true
+									}
+								}
+							}
+						}
+					}
+				}
+				r.check("C01.OP", fnName(fn)+": the single-operation fallback is for a request that names no operation", valPos(t), unnamed, "the fallback is taken whatever name the caller gave: `query A {a}` requested with the operation name C executes A, where an unknown name must execute no resolver at all")
 			default:
 				if isNilConst(lf.val) {
 					// "no such operation": fine where every use of the value is behind a nil test of it
